@@ -1,6 +1,6 @@
 (* Model/SearchPB.v -- the cutting-planes search loop of gophersat as a
    NONDETERMINISTIC transition system: solver/solver.go propagateAndSearchPB
-   (committed version d10e5a6, the function right after propagateAndSearch; the
+   (committed version 0a73d0f, the function right after propagateAndSearch; the
    tracing calls s.verifQuiet / s.verifConflict / s.verifCP are no-ops), with
    search / Solve around it, and what it calls: chooseLit, unifyLiteral,
    unifyLiterals (watcher.go), cleanupBindings, reduceLearnedPB, and
@@ -23,21 +23,18 @@
    yet; propagation happens between two of them (unifyLiteral), so they are
    treated one at a time (St_next_unit).
 
-   ONE ABSTRACTION, stated here because it concerns the Go code.  In the
-   newLvl == 1 branch the code does, for each unit,
-       s.cleanupBindings(1); s.addLearnedUnit(unit)
-       s.model[unit.Var()] = lvlToSignedLvl(unit, 1)
-       s.unifyLiteral(unit, 1)                       // pushes unit on the trail
-   without testing whether [unit] is ALREADY TRUE at level 1.  In that case the
-   real trail receives a second copy of a literal it already holds (observed on
-   the running solver; the copies stay for ever since level 1 is never cleaned).
-   The trail of this model is the real trail WITHOUT the later copies (exactly
-   Judge.J21.dedup_trail): [unit_step] pushes the unit only when it is free.
-   All the theorems of Properties/C14c.v are about this de-duplicated view.
-   What the second copy can change in the real code is discussed in
-   Proofs/SearchPB.v (header); nothing was observed (Judge/J21.v compares
-   cuttingPlanes on the real trail with cutting_planes on the de-duplicated one
-   on every observed call).
+   UNITS THAT ARE ALREADY FACTS.  Before commit 0a73d0f the newLvl == 1 branch
+   pushed every unit on the trail, also one that was already true at level 1:
+   the real trail received second copies of literals (observed).  Since 0a73d0f
+   such a unit is skipped ("continue"), and this model does the same
+   (units_succ): the trail of the model is the trail of the solver as far as
+   this loop is concerned.  Second copies can still come from solver.New when
+   the problem repeats a unit constraint (initial trail); the initial trail of
+   the model (init_pconfig, init_okb) has distinct variables, i.e. it is the
+   real one without the later copies (Judge.J21.dedup_trail).
+   The push itself is modelled as the code does it (model entry set, literal
+   appended), without testing that the variable is free: Proofs/SearchPB.v shows
+   that it is.
 
    FORGETTING.  reduceLearnedPB (watcher.go) removes the lower half of
    s.wl.learned (sorted by lbd, then activity) "unless c.isLocked()".  But
@@ -98,30 +95,26 @@ Definition confl_chk (n : nat) (md : list Z) (c : pbc) : bool :=
 Definition prop_chk (n : nat) (md : list Z) (c : pbc) (l : lit) (lvl : Z) : bool :=
   free_lit md l && reason_okb n (push md l lvl) c l.
 
-(* solver.go, newLvl == 1, one unit:
+(* solver.go, newLvl == 1 (commit 0a73d0f), "for _, unit := range propagated":
      if abs(s.model[unit.Var()]) == 1 && s.litStatus(unit) == Unsat { return s.setUnsat() }
+     if abs(s.model[unit.Var()]) == 1 { continue }        // already a fact
      s.cleanupBindings(1); s.addLearnedUnit(unit); s.model[...] = ...; s.unifyLiteral(unit, 1)
-   None = setUnsat.  (unit == -1 does not happen: cuttingPlanes returns literals.)
-   The push is made only when the unit is free: see the header. *)
-Definition unit_step (tr : list lit) (md : list Z) (rs : list (option pbc)) (u : lit)
-  : option (list lit * list Z * list (option pbc)) :=
-  if (Z.abs (model_at md u) =? 1) && lit_false md u then None
-  else
-    let '(tr1, md1, rs1) := cleanup_bindings 1 tr md rs in
-    if free_lit md1 u then Some (tr1 ++ [u], push md1 u 1, rs1)
-    else Some (tr1, md1, rs1).
-
-(* the units branch entered with the units [us]; md is the model left by
-   cuttingPlanes.  An empty list (not produced by cuttingPlanes,
-   Proofs/SearchPB.v cp_units_nonempty) leaves everything as it is. *)
-Definition units_succ (s : pstate) (md : list Z) (us : list lit) : pconfig :=
+   [md] is the model at that point (the one left by cuttingPlanes for the first
+   units).  The units that are already facts are skipped at once (no
+   propagation happens between them); the first other one is bound at level 1
+   after cleanupBindings(1), and the rest of the list is left pending, since
+   unifyLiteral propagates before the next unit is looked at.  When the list is
+   exhausted the loop goes on with the bindings as they are (lit = chooseLit(),
+   lvl = 2). *)
+Fixpoint units_succ (s : pstate) (md : list Z) (us : list lit) : pconfig :=
   match us with
   | [] => PRunning (PState (ps_trail s) md (ps_reason s) (ps_learned s) 1 [] (ps_ghost s))
   | u :: rest =>
-    match unit_step (ps_trail s) md (ps_reason s) u with
-    | None => PFinal PUnsat
-    | Some (tr1, md1, rs1) => PRunning (PState tr1 md1 rs1 (ps_learned s) 1 rest (ps_ghost s))
-    end
+    if (Z.abs (model_at md u) =? 1) && lit_false md u then PFinal PUnsat
+    else if Z.abs (model_at md u) =? 1 then units_succ s md rest
+    else
+      let '(tr1, md1, rs1) := cleanup_bindings 1 (ps_trail s) md (ps_reason s) in
+      PRunning (PState (tr1 ++ [u]) (push md1 u 1) rs1 (ps_learned s) 1 rest (ps_ghost s))
   end.
 
 (* solver.go, the body of "for conflict != nil":
@@ -138,6 +131,43 @@ Definition conflict_succ (s : pstate) (c : pbc) : pconfig :=
   | (CPUnits us, md') => units_succ s md' us
   | (CPLearn c' props nl, md') =>
     if nl =? 1 then units_succ s md' props
+    else
+      let '(tr1, md1, rs1) := cleanup_bindings nl (ps_trail s) md' (ps_reason s) in
+      PRunning (PState (tr1 ++ props)
+                       (fold_left (fun m l => push m l nl) props md1)
+                       (fold_left (fun r l => set_nth_g (vidx l) (Some c') r) props rs1)
+                       (c' :: ps_learned s) nl [] (c' :: ps_ghost s))
+  end.
+
+(* ---- the same before commit 0a73d0f (only used to state the repetition that
+   the commit repairs, Properties/C14c.v): every unit was pushed, already a fact
+   or not (here: when free, i.e. on the de-duplicated trail), and cuttingPlanes
+   ended with cp_finish_v1 ---- *)
+Definition unit_step_old (tr : list lit) (md : list Z) (rs : list (option pbc)) (u : lit)
+  : option (list lit * list Z * list (option pbc)) :=
+  if (Z.abs (model_at md u) =? 1) && lit_false md u then None
+  else
+    let '(tr1, md1, rs1) := cleanup_bindings 1 tr md rs in
+    if free_lit md1 u then Some (tr1 ++ [u], push md1 u 1, rs1)
+    else Some (tr1, md1, rs1).
+
+Definition units_succ_old (s : pstate) (md : list Z) (us : list lit) : pconfig :=
+  match us with
+  | [] => PRunning (PState (ps_trail s) md (ps_reason s) (ps_learned s) 1 [] (ps_ghost s))
+  | u :: rest =>
+    match unit_step_old (ps_trail s) md (ps_reason s) u with
+    | None => PFinal PUnsat
+    | Some (tr1, md1, rs1) => PRunning (PState tr1 md1 rs1 (ps_learned s) 1 rest (ps_ghost s))
+    end
+  end.
+
+Definition conflict_succ_old (s : pstate) (c : pbc) : pconfig :=
+  match cutting_planes_mid_full (cp_state s c) with
+  | (CPPanic, _) | (CPPanicArith, _) | (CPFuel, _) => PCrashed
+  | (CPUnsat, _) => PFinal PUnsat
+  | (CPUnits us, md') => units_succ_old s md' us
+  | (CPLearn c' props nl, md') =>
+    if nl =? 1 then units_succ_old s md' props
     else
       let '(tr1, md1, rs1) := cleanup_bindings nl (ps_trail s) md' (ps_reason s) in
       PRunning (PState (tr1 ++ props)
